@@ -107,3 +107,42 @@ Lemma C20_fixed_schema_timer_script_releases :
   goodb false (fst (fst (stop_state false timer_script))) (snd (fst (stop_state false timer_script))) = true /\
   existsb live (hp (release_all (fst (fst (stop_state false timer_script))) (snd (fst (stop_state false timer_script))))) = false.
 Proof. vm_compute. split; reflexivity. Qed.
+
+(* A task that keeps a handle to its own module context (the seeded change to
+   AsyncFn::failable in net/runtime/blocks.rs: `let node = current();` moved into the future).
+   The schema has no edge out of a Task, in either variant: *)
+Lemma C20_task_to_ctx_rejected : forall pin c k d, edge_ok pin (TTask c) k (TCtx d) = false.
+Proof. intros pin c k d. reflexivity. Qed.
+
+(* ... and for a reason: take the graph of a finished simulation whose AsyncFn::failable task is
+   still waiting on its receiver, and give the task a counted handle to its context.  Counts
+   stay consistent, typing fails, and after everything is dropped the context, its runtime and
+   the task's capture (a user-visible value) are still allocated. *)
+Definition blk_script : list N := [4; 0; 0; 0;  1;  0;0;0;0;0;8;0;0;1;0;  0;  1; 0;0;5]%N.
+Definition first_idx (p : tag -> bool) (h : heap) : nat :=
+  (fix go (l : heap) (i : nat) : nat := match l with [] => i | ob :: r => if p (otag ob) && live ob then i else go r (S i) end) h 0.
+Definition is_task_tag (t : tag) : bool := match t with TTask _ => true | _ => false end.
+Definition is_rt_tag (t : tag) : bool := match t with TRuntime => true | _ => false end.
+Definition blk_st : st := Eval vm_compute in
+  let s := fst (fst (stop_state false blk_script)) in
+  {| hp := add_edge (hp s) (first_idx is_task_tag (hp s)) (KField 0) (first_idx is_ctx (hp s)); freed := freed s; bad := bad s |}.
+Definition blk_roots : list nat := Eval vm_compute in snd (fst (stop_state false blk_script)).
+Definition blk_after : heap := Eval vm_compute in hp (release_all blk_st blk_roots).
+
+Lemma C20_task_holding_its_context_leaks :
+  exists s roots, inv s roots /\ typedb false (hp s) = false /\
+    (exists o ob, nth_error (hp (release_all s roots)) o = Some ob /\ live ob = true /\ is_ctx (otag ob) = true) /\
+    (exists o ob, nth_error (hp (release_all s roots)) o = Some ob /\ live ob = true /\ is_rt_tag (otag ob) = true) /\
+    (exists o ob, nth_error (hp (release_all s roots)) o = Some ob /\ live ob = true /\ is_task_tag (otag ob) = true) /\
+    alive_users (hp (release_all s roots)) = 1%N.
+Proof.
+  exists blk_st, blk_roots. split; [apply invb_sound; vm_compute; reflexivity|]. split; [vm_compute; reflexivity|].
+  assert (E : hp (release_all blk_st blk_roots) = blk_after) by (vm_compute; reflexivity). rewrite E.
+  repeat split; try (apply some_live_spec; vm_compute; reflexivity).
+Qed.
+
+(* without that edge the same simulation releases everything (also an instance of
+   C20_every_simulation_releases_everything) *)
+Lemma C20_block_task_without_context_handle_releases :
+  existsb live (hp (release_all (fst (fst (stop_state false blk_script))) (snd (fst (stop_state false blk_script))))) = false.
+Proof. vm_compute. reflexivity. Qed.
